@@ -125,6 +125,28 @@ def runtime_part(run, tier):
             run.violation("backward.each_op_exactly_once" if once else ("backward.completes_on_any_graph" if "raised" in bd["what"] else "backward.leaf_gradient"),
                           "random DAG seed %d (%d ops, shared intermediates): %s [%d of %d DAGs fail]" % (bd["seed"], bd["ops"], bd["what"], r["n_bad"], ndag),
                           key={"family": "dag", "seed": bd["seed"], "clause": "dag"}, replay={"cmd": j["cmd"].replace(json_of(spec), json_of({**spec, "first_seed": bd["seed"], "count": 1})), "case": bd})
+    # several roots over one shared trunk, one sweep per root
+    spec = {"kind": "heads", "configs": [[40, 2], [40, 3], [3000, 3], [7, 5]]}
+    j = deep.run_job(spec, timeout=600)
+    if j["status"] != "ok":
+        run.error("heads job: %s in phase %s: %s" % (j["status"], j.get("last_phase"), j.get("stderr_tail", "")[-400:]))
+    else:
+        for cfg in j["result"]["configs"]:
+            run.rt(("heads", cfg["trunk_ops"], cfg["heads"]))
+            key = {"family": "shared trunk", "trunk_ops": cfg["trunk_ops"], "heads": cfg["heads"]}
+            bad = None
+            for si, sw in enumerate(cfg["sweeps"]):
+                if not sw["completed"]:
+                    bad = ("backward.completes_on_any_graph", "sweep %d raised %s: %s" % (si, sw["exception"], sw["message"]))
+                elif sw["calls_total"] != sw["recorded_ops"] or sw["calls_max_per_op"] != 1 or sw["ops_never_called"]:
+                    bad = ("backward.each_op_exactly_once", "sweep %d (root %d of %d over a shared trunk of %d ops): %d recorded ops reachable, %d grad_fn invocations, %d never invoked"
+                           % (si, si, cfg["heads"], cfg["trunk_ops"], sw["recorded_ops"], sw["calls_total"], sw["ops_never_called"]))
+                if bad:
+                    break
+            if not bad and (cfg["grad_rel_err"] is None or not cfg["grad_rel_err"] <= REL_TOL):
+                bad = ("backward.leaf_gradient", "after one sweep per head the leaf holds %s, the sum of the heads' derivatives is %s" % (cfg["grad"], cfg["expected"]))
+            if bad:
+                run.violation(bad[0], bad[1], key=dict(key, clause="multi_root"), replay={"cmd": j["cmd"], "spec": spec, "result": cfg})
     for mode in ("plain", "no_grad", "no_grad_reused", "plain_varying", "no_grad_varying"):
         spec = {"kind": "untracked", "mode": mode, "loops": LOOPS}
         j = deep.run_job(spec, timeout=300)
